@@ -20,6 +20,9 @@ CHECKS = {
  'C13': dict(cat='exploration', sec='4/C13', tech='runtime monitoring: one watched child process of the real CLI per fuzzed input (type grammar, directive grammar+mutation, argv); exit-status/stderr/panic-dump/hang monitor',
    text='Thousands of generated inputs over the exotic part of the Go type grammar, mutated directives at every directive position and random argument vectors are each run in their own CLI process under a watchdog; exit status must be 0 or 1, no Go panic dump, failures carry a diagnostic naming the declaration.',
    note='hang = no termination within 60 s (300x normal); non-compiling generated inputs are dropped before goverter sees them'),
+ 'C15': dict(cat='exploration', sec='4/C15', tech='runtime monitoring: real CLI under strace in scratch module trees; written-path set, package clause, open/mkdir mode arguments vs an independent layout model',
+   text='Seeded layout scenarios (output:file default/relative/parent/absolute/@cwd/same-package x output:package absent/PATH/PATH:NAME/:NAME x existing target package x shared files x invocation from root, sub-directory, -cwd) are run through the real CLI; the set of written paths, each package clause and the requested modes must equal the layout model, conflicting shared files must be rejected, and the module must build.',
+   note='layout model written from docs/reference/output.md; inconsistent output:package PATH and :NAME compile edge cases are not judged'),
  'C17': dict(cat='fault_enumeration', sec='4/C17', tech='runtime monitoring: real CLI under strace (syscall log of file-system effects) with enumerated faulty-converter subsets, prior output states and injected I/O faults; tree digest before/after',
    text='For multi-package scenarios every subset of converters (all subsets up to 4 converters) is made faulty at directive, signature or conversion stage; a failing run must exit 1 with a diagnostic and perform no mutating syscall below the module tree; fault-free runs must leave exactly the in-process result; help/usage vectors and strace-injected ENOSPC/EACCES faults complete the enumeration.',
    note='strace -ff -y sees all syscalls of the CLI and children; in-process public API result is the byte reference for successful runs'),
